@@ -273,7 +273,12 @@ class MarkdownRenderer(BaseRenderer):
     def render_setext_heading(
         self, token: block_token.SetextHeading, max_line_length: int
     ) -> Iterable[str]:
-        yield from self.span_to_lines(token.children, max_line_length=max_line_length)
+        lines = self.span_to_lines(token.children, max_line_length=max_line_length)
+        for index, line in enumerate(lines):
+            # a content line made of "=" or "-" only would end the heading there
+            if index > 0 and block_token.Paragraph.is_setext_heading(line):
+                line = "\\" + line
+            yield line
         yield token.underline
 
     def render_quote(
